@@ -213,7 +213,7 @@ func (f MultipartForm) Do(w http.ResponseWriter, r *http.Request, exec graphql.G
 	rc, gerr := exec.CreateOperationContext(r.Context(), &params)
 	if gerr != nil {
 		resp := exec.DispatchError(graphql.WithOperationContext(r.Context(), rc), gerr)
-		w.WriteHeader(statusFor(gerr))
+		w.WriteHeader(operationErrorStatus(configuredContentType(f.ResponseHeaders), gerr))
 		writeJson(w, resp)
 		return
 	}
